@@ -36,7 +36,7 @@ def gen_corpus(seed, tier):
     jobs = []
     for j in range(njobs):
         rng = Rng(seed, "hashsim/job%d" % j)
-        kind = rng.weighted([("graph", 6), ("src", 3), ("bc", 1.5), ("bcref", 0.5)])
+        kind = rng.weighted([("graph", 6), ("src", 3), ("bc", 1.5), ("bcref", 1.5)])
         if kind == "graph":
             fam = rng.choice(["rand", "struct", "irred", "irred"])
             n = rng.randint(4, nmax)
@@ -47,7 +47,9 @@ def gen_corpus(seed, tier):
             jobs.append({"kind": kind,
                          "source": proggen.gen_program(rng.fork("p"), size=rng.randint(4, 16))})
         else:
-            jobs.append({"kind": "bcref", "ref": STDLIB_REFS[j % len(STDLIB_REFS)]})
+            from sim import stdcorpus
+            refs = stdcorpus.list_refs(400 if tier == "quick" else 1600)
+            jobs.append({"kind": "bcref", "ref": rng.choice(refs)})
     return jobs
 
 
